@@ -283,7 +283,10 @@ type senderWorld struct {
 // senderOwns: which oracle groups a property's check reports. The same runs feed six properties;
 // a violation of another property's oracle is that property's business (counted as a probe here).
 var senderOwns = map[string][]string{
-	"C02": {"c02/"}, "C03": {"c03/"}, "C09": {"c09/"}, "C10": {"c10/"}, "C13": {"c13/", "c02/"}, "C17": {"c17/"},
+	"C02": {"c02/"}, "C03": {"c03/"}, "C09": {"c09/"}, "C10": {"c10/"}, "C13": {"c13/", "c02/"},
+	// "cutting the range never drops, duplicates or reorders events": the content of every certificate on the wire
+	// is the bridge and claim events of exactly its own range, in chain order - the four content oracles say that
+	"C17": {"c17/", "c03/exits-count", "c03/exit-field", "c03/imported-count", "c03/imported-field"},
 	// the signed commitment is one of the places that carry a claim's global index (C19): the signature check
 	// recomputes it from the wire message's global indexes
 	"C19": {"c19/", "c10/signature"},
